@@ -5,7 +5,7 @@
    of 0..n-1, the unshuffled case is `indices = seq 0 n`.  `mem i l` is membership as a boolean.
    The estimator (`fit`, `predict`, `score`) is universally quantified. *)
 From Coq Require Import List Arith Bool Permutation ZArith.
-From SC Require Import C16.Model C16.F32 C16.Proofs C16.ProofsTTS C16.ProofsCV C16.ProofsF32.
+From SC Require Import C16.Model C16.F32 C16.Proofs C16.ProofsTTS C16.ProofsCV C16.ProofsF32 C16.ProofsExt.
 Import ListNotations.
 
 (* k-fold, every n, every k >= 2, every permutation: exactly k (train, test) pairs; the test sets
@@ -34,6 +34,19 @@ Theorem C16_kfold_blocks_unshuffled : forall n k, 2 <= k ->
       snd (nth j folds ([], [])) =
       seq (j * (n / k) + Nat.min j (n mod k)) (n / k + (if j <? n mod k then 1 else 0)).
 Proof. exact kfold_blocks_unshuffled. Qed.
+
+(* with shuffling the same structure follows the permutation: test set j is exactly (as a set, listed
+   in increasing order) the j-th block indices[start_j .. start_j + size_j) of the permuted index
+   vector, start_j = j*(n/k) + min(j, n mod k), size_j = n/k (+1 for j < n mod k); for k <= n no
+   test set is empty *)
+Theorem C16_kfold_tests_follow_permutation : forall n k indices,
+  2 <= k -> Permutation indices (seq 0 n) ->
+  exists folds, kfold_split n k indices = Some folds /\
+    forall j, j < k ->
+      Permutation (snd (nth j folds ([], []))) (firstn (fold_size n k j) (skipn (fold_start n k j) indices)) /\
+      length (snd (nth j folds ([], []))) = fold_size n k j /\
+      (k <= n -> 1 <= fold_size n k j).
+Proof. exact kfold_tests_follow_permutation. Qed.
 
 (* train_test_split, any row type, any target type, every permutation, every admissible size:
    the index vector is cut into test = first n_test entries and train = the rest (so the two parts
@@ -79,6 +92,14 @@ Theorem C16_tts_size_overshoot_witness :
     ts_ok_f32 (f32_of_bits bits) = true /\
     (Z.of_N n < n_test_f32_Z (Z.of_N n) (f32_of_bits bits))%Z.
 Proof. exact tts_size_overshoot_witness. Qed.
+
+(* NOT PROVED (extension): below 2^24 rows the overshoot cannot happen.  Needs Flocq's
+   Bmult_correct / binary_normalize_correct / Btrunc_correct plus monotonicity of rounding
+   (n exactly representable, n*ts <= n ==> round(n*ts) <= n); checked per run by the
+   correspondence group tts_size_f32 and by the search, not by a theorem. *)
+Definition C16_tts_size_within_n_full_statement : Prop :=
+  forall (n : nat) (bits : Z), (Z.of_nat n <= 2 ^ 24)%Z ->
+    ts_ok_f32 (f32_of_bits bits) = true -> n_test_f32 n (f32_of_bits bits) <= n.
 
 (* cross_val_predict, every estimator, every permutation: whenever it returns, the result has one
    entry per sample, and for every sample i there is exactly the fold (tr, te) whose test set holds
